@@ -56,6 +56,9 @@ SCRIPTS = [
     {'name': 'tifa-settings', 'code': PRE + 'MAIN_REPORT["tifa"]["settings"]["truthiness_returns_booleans"] = False\n'
      'MAIN_REPORT["tifa"]["settings"]["evaluate_string_literal_types"] = True\nMAIN_REPORT["tifa"]["settings"]["allow_unused_variables"] = True\n'
      'from pedal.tifa import tifa_analysis\ntifa_analysis()\ngently("configured", label="cfg", priority="low")\n'},
+    # the script inspects what the mocked turtle module recorded for THIS submission
+    {'name': 'turtle-count', 'code': PRE + 'from pedal.sandbox.commands import get_sandbox\nstudent = run()\n'
+     'calls = get_sandbox().modules.turtles.calls\ngently("turtle commands: %d" % len(calls), label="turtle_count")\n'},
     {'name': 'explain-plain', 'code': PRE + 'explain("plain explanation", label="e1")\n'},
     {'name': 'mocks', 'code': PRE + 'block_function("sum")\nmock_function("max", lambda *a: 99)\nallow_module("os")\nstudent = run()\n'
      'assert_equal(evaluate("max(1, 2)"), 99)\n'},
@@ -118,7 +121,9 @@ ALWAYS = [(('pools-subclass', 'add-ok'), ('pools-c', 'add-ok')), (('pools-subcla
           (('override-parent-child', 'add-ok'), ('override-child-only', 'runtime'), ('plain', 'runtime')),
           (('override-child-only', 'add-ok'), ('override-parent-only', 'add-ok'), ('plain', 'zerodiv')),
           (('pools', 'add-ok'), ('override-twice', 'add-ok'), ('pools-b', 'add-ok')),
-          (('crash', 'add-ok'), ('override-child-only', 'zerodiv'), ('plain', 'zerodiv'))]
+          (('crash', 'add-ok'), ('override-child-only', 'zerodiv'), ('plain', 'zerodiv')),
+          (('turtle-count', 'turtle-use'), ('turtle-count', 'turtle-use')), (('plain', 'turtle-use'), ('turtle-count', 'turtle-use')),
+          (('turtle-count', 'turtle-use'), ('turtle-count', 'add-ok'))]
 FIELDS = ('label', 'title', 'message', 'correct', 'score', 'output', 'error')
 
 
